@@ -335,6 +335,52 @@ def check_r04d(repo, rep):
     return n
 
 
+def _attribution_by_evaluation(repo, fi, ov, D, C):
+    """The collection overload of `.` applied abstractly to a collection of
+    three opaque elements with an uninterpreted delegate: the result, read
+    to its end, is the delegate's answer for each element, in order, and
+    the delegate was asked about each element exactly once.  None when the
+    body is outside the evaluator's fragment."""
+    from sa import absint
+    elems = [absint.Sym('element%d' % i) for i in range(3)]
+    answers = {e.name: absint.Sym('answer-for-' + e.name) for e in elems}
+    asked = []
+
+    def oracle(callee, args, kwargs):
+        if callee == 'the-delegate':
+            asked.append(list(args))
+            if args and isinstance(args[0], absint.Sym) and \
+                    args[0].name in answers:
+                return (answers[args[0].name],)
+            return (absint.Sym('answer-for-something-else'),)
+        return None
+    args = {}
+    for p in fi.params():
+        if p == D:
+            args[p] = absint.Sym('the-delegate')
+        elif p == C:
+            args[p] = list(elems)
+        else:
+            args[p] = absint.Sym('arg-' + p)
+    it = absint.Interp(repo, fi.module, oracle)
+    try:
+        out = it.run(fi.node, args)
+        if out[0] != 'return':
+            return None
+        got = [it.force(x) for x in it.iterate(out[1])]
+    except (absint.Unsupported, absint._Raise, RecursionError, TypeError):
+        return None
+    want = [answers[e.name] for e in elems]
+    if len(got) != len(want) or any(a is not b for a, b in zip(got, want)):
+        return False, 'on three elements %s yields %r, not the ' \
+            'delegate\'s answers %r' % (fi.qualname, got, want)
+    firsts = [a[0] if a else None for a in asked]
+    if len(firsts) != 3 or any(a is not b for a, b in zip(firsts, elems)):
+        return False, '%s asks the delegate about %r' % (fi.qualname,
+                                                         asked)
+    return True, ''
+
+
 def check_collection_attribution(repo, rep, uni):
     """R04e: `.name` on a collection maps `.name` over its elements: every
     per-element result of the collection overload of `.` is the `.`
@@ -349,6 +395,14 @@ def check_collection_attribution(repo, rep, uni):
         if not dparam or not coll:
             continue
         D, C = dparam[0], coll[0]
+        verdict = _attribution_by_evaluation(repo, fi, ov, D, C)
+        if verdict is not None:
+            n += 1
+            rep.ob('R04e', fi.key + '/maps-the-delegate', verdict[0],
+                   '`collection.name` must be `.name` of every element, '
+                   'i.e. the `.` delegate `%s` applied to the element; %s'
+                   % (D, verdict[1]), loc=fi.module.loc(fi.node))
+            continue
         leaves = []     # (element variable, expression)
         found = False
 
